@@ -350,6 +350,27 @@ def bfs(max_depth):
     return seen, transitions, viol, depth, not frontier
 
 
+def shard_bfs(arg):
+    """the canonical-state BFS as a shard (runs in a forked child so that the
+    main process never executes the code under test)"""
+    max_depth = arg
+    seen, transitions, viol, depth, fix = bfs(max_depth)
+    sh = Shard()
+    sh.n = transitions
+    sh.nt = len(seen)
+    for hist, bad in viol:
+        sh.violation("history", bad[0], dict(hist=[list(e) for e in hist]),
+                     bad[1], bad[2])
+    sh.sample(dict(history=[list(map(str, e)) for e in
+                            max(seen.values(), key=len)],
+                   note="deepest first-reached state"))
+    sh.extra["bfs_states"] = len(seen)
+    sh.extra["bfs_transitions"] = transitions
+    sh.extra["bfs_depth"] = depth
+    sh.extra["bfs_fixpoint"] = 1 if fix else 0
+    return sh
+
+
 def shard_sequences(arg):
     """unmerged: every event sequence of the given length with the given
     first events"""
@@ -546,6 +567,23 @@ def shard_remote_validation(arg):
     return sh
 
 
+def shard_smallorder(arg):
+    sh = Shard()
+    for t in [t for t in catalog.all_toys() if t.has("h4cyclic")][:3]:
+        for d in (4, 8, 16):
+            if d >= t.n:
+                continue
+            sh.n += 1
+            sh.nt += 1
+            bad = smallorder_case(t.rec(), d)
+            if bad and bad != "n/a":
+                sh.violation("smallorder", bad[0], dict(rec=t.rec(), d=d),
+                             bad[1], bad[2])
+    sh.sample(dict(case="unvalidated remote key of order 4, d in {4,8,16}: "
+                   "d*T is the identity"))
+    return sh
+
+
 def real_case(name, i, j, form):
     from ecdsa import curves as cv
     from ecdsa.ecdh import ECDH
@@ -639,21 +677,10 @@ def main(ctx):
         raise common.OracleBroken(err)
     w = World.get()
     rep = common.Report()
-    # (1) merged BFS over canonical states
-    seen, transitions, viol, depth, fix = bfs(ctx.pick(6, 8))
-    sh = Shard()
-    sh.n = transitions
-    sh.nt = len(seen)
-    for hist, bad in viol:
-        sh.violation("history", bad[0], dict(hist=[list(e) for e in hist]),
-                     bad[1], bad[2])
-    sh.sample(dict(history=[list(map(str, e)) for e in
-                            max(seen.values(), key=len)],
-                   note="deepest first-reached state"))
-    rep.absorb("bfs-canonical-states", sh.pack())
+    # (1) merged BFS over canonical states (as a shard, see shard_bfs)
+    jobs = [(shard_bfs, "bfs-canonical-states", ctx.pick(6, 8))]
     # (2) unmerged sequences
     evs = events()
-    jobs = []
     length = ctx.pick(3, 4)
     for ch in common.chunks(evs, 2 * ctx.jobs):
         jobs.append((shard_sequences, "all-sequences-unmerged", (ch, length)))
@@ -698,29 +725,16 @@ def main(ctx):
                     rj.append((name, i, j, form))
     for ch in common.chunks(rj, 4 * ctx.jobs):
         jobs.append((shard_real, "real-curves", ch))
+    jobs.append((shard_smallorder, "result-at-infinity", None))
     common.run_shards(ctx, jobs, rep)
-    # (4) result at infinity
-    sh = Shard()
-    for t in [t for t in catalog.all_toys() if t.has("h4cyclic")][:3]:
-        for d in (4, 8, 16):
-            if d >= t.n:
-                continue
-            sh.n += 1
-            sh.nt += 1
-            bad = smallorder_case(t.rec(), d)
-            if bad and bad != "n/a":
-                sh.violation("smallorder", bad[0], dict(rec=t.rec(), d=d),
-                             bad[1], bad[2])
-    sh.sample(dict(case="unvalidated remote key of order 4, d in {4,8,16}: "
-                   "d*T is the identity"))
-    rep.absorb("result-at-infinity", sh.pack())
+    transitions = int(rep.extra.get("bfs_transitions", 0))
     rep.coverage.update({
-        "states": len(seen),
+        "states": int(rep.extra.get("bfs_states", 0)),
         "transitions": transitions,
         "traces_validated_against_impl": transitions +
         int(rep.extra.get("sequences", 0)),
-        "bfs_depth": depth,
-        "fixpoint_reached": fix,
+        "bfs_depth": int(rep.extra.get("bfs_depth", 0)),
+        "fixpoint_reached": bool(rep.extra.get("bfs_fixpoint", 0)),
         "unmerged_sequence_length": length,
         "events": len(evs),
         "toy_curves": cover,
